@@ -72,7 +72,19 @@ pub fn gen_frag_cfg(r: &mut Rng, o: &FragOpts) -> (FragCfg, Option<av1::SeqHdr>)
         }
         AV1 => {
             let hdr = av1::gen_seq_hdr(r);
-            c.av1_seq = Some(av1::obu(1, &hdr.write(), true, None));
+            let mut bytes = Vec::new();
+            // what an application hands over may hold more than the bare header OBU: a leading
+            // temporal delimiter, trailing metadata OBUs (AV1-ISOBMFF allows those in configOBUs)
+            let extras = r.chance(1, 4);
+            if extras && r.chance(1, 2) {
+                bytes.extend_from_slice(&av1::obu(2, &[], true, None));
+            }
+            bytes.extend_from_slice(&av1::obu(1, &hdr.write(), true, None));
+            if extras && r.chance(2, 3) {
+                let n = r.range(1, 12) as usize;
+                bytes.extend_from_slice(&av1::obu(5, &r.bytes(n), true, None));
+            }
+            c.av1_seq = Some(bytes);
             side = Some(hdr);
         }
         _ => {
